@@ -948,9 +948,10 @@ class Qobj:
         """
         if not self._dims.issquare:
             raise TypeError("expm is only valid for square operators")
+        # The logarithm of a Hermitian operator is only Hermitian when it is
+        # positive definite, so the flag is recomputed on demand.
         return Qobj(_data.logm(self._data),
                     dims=self._dims,
-                    isherm=self._isherm,
                     copy=False)
 
     def check_herm(self) -> bool:
